@@ -189,6 +189,14 @@ def parseQuic : Nat → List String → Option (List (Bytes × Bytes) × List St
     pure ((x, y) :: rest, r')
   | _, _ => none
 
+def parseRT : Nat → List String → Option (List (String × YVal) × List String)
+  | 0, r => some ([], r)
+  | n + 1, a :: b :: r => do
+    let y ← parseTree b
+    let (rest, r') ← parseRT n r
+    pure ((a, y) :: rest, r')
+  | _, _ => none
+
 def stepDoc (ins impl : List String) : Option String := do
   match ins with
   | target :: stepT :: nk :: r0 =>
@@ -210,15 +218,18 @@ def stepDoc (ins impl : List String) : Option String := do
         let apRes ← hexDecode apRes
         let (quics, r5) ← parseQuic (← parseNat nQuic) r4
         match r5 with
-        | [uf] =>
+        | uf :: nRT :: r6 =>
           let uf ← hexDecode uf
+          let (rts, r7) ← parseRT (← parseNat nRT) r6
+          if !r7.isEmpty then none else
           let o : Oracles := {
             fmtDays := fun n => (lookupAssoc n ints).map (·.1)
             fmtHours := fun n => (lookupAssoc n ints).map (·.2)
             addrOK := fun h => if h == apHost then some apOK else none
             addrPort := fun h p => if h == apHost && p == apPort then some apRes else none
             quic := fun u => lookupAssoc u quics
-            ufPattern := uf }
+            ufPattern := uf
+            rt := fun k p => lookupAssoc ("x" ++ toString k ++ ":" ++ hexEncode p) rts }
           let c : Case := { parsed := parsed, target := target, stepTarget := stepTarget, ks := ks }
           -- model
           let (mOne, mStep, mSplits) := modelOutcomes o c
@@ -241,7 +252,7 @@ def stepDoc (ins impl : List String) : Option String := do
             if rSplits.length != ks.length then none else
             let obs : Obs := { one := rOne, step := rStep, splits := rSplits }
             let agree := modelFields == impl
-            let spec := (specWhy c obs).map whyName
+            let spec := (specWhy o c obs).map whyName
             let shown := "\t".intercalate (modelFields.map (fun s => if s.length > 60 then (s.take 60).toString ++ "…" else s))
             let cls := (sOne.take 1).toString ++ (match parsed with
               | some d => (match versionOf d with | some v => toString v | none => "?") | none => "!")
